@@ -12,3 +12,4 @@ import Bp7.Props.C02
 #print axioms Bp7.C02.crcAgree
 #print axioms Bp7.CrcAgreeProof.crc16_agree
 #print axioms Bp7.CrcAgreeProof.crc32c_agree
+#print axioms Bp7.C02.encode_eq_spec_stalefrag
